@@ -13,6 +13,31 @@ verus! {
 //@include C10/inc/svc_env.rs
 //@include C10/inc/sv_new.rs
 
+// sanity of the assumed contract of `clean` (A-SVC-CLEAN): it admits what Vec::retain can do -- keeping everything,
+// and removing any one entry whose coefficient is 0 (so the stand-in is not vacuous and not over-restrictive there)
+proof fn lemma_drops_only_zero_refl<T: RealNumber, V: BaseVector<T>>(o: Seq<SupportVector<T, V>>)
+    ensures drops_only_zero(o, o),
+    decreases o.len()
+{
+    if o.len() > 0 { lemma_drops_only_zero_refl(o.drop_last()); }
+}
+proof fn lemma_drops_only_zero_remove<T: RealNumber, V: BaseVector<T>>(o: Seq<SupportVector<T, V>>, i: int)
+    requires 0 <= i < o.len(), val(o[i].alpha) == 0real,
+    ensures drops_only_zero(o, o.remove(i)),
+    decreases o.len()
+{
+    let o1 = o.drop_last();
+    let n = o.remove(i);
+    if i == o.len() - 1 {
+        assert(n =~= o1);
+        lemma_drops_only_zero_refl(o1);
+    } else {
+        assert(n.last() == o.last());
+        assert(n.drop_last() =~= o1.remove(i));
+        lemma_drops_only_zero_remove(o1, i);
+    }
+}
+
 impl<'a, T: RealNumber, M: Matrix<T>, K: Kernel<T, M::RowVector>> Optimizer<'a, T, M, K> {
 //@include C10/inc/opt_update_fns.rs
 //@include C10/inc/opt_smo_fns.rs
